@@ -33,13 +33,19 @@ class KeyVal(str):
     ast = None
 
 
+ctxvars = {"context"}   # variables initialised from tera::Context::new() (collected while walking); the conventional name is the seed
+
+
 def collect_renders(fn, stmts, inherited, out):
     """(fn, template name, {key: value expression text (KeyVal)}) for each render call; block scoped"""
     keys = dict(inherited)
     for st in stmts:
+        if st.get("k") == "let" and st.get("init") is not None and re.search(r"(^|::)Context::(new|default)\(", expr_text(st["init"])):
+            from srclib import pat_bindings as _pb
+            ctxvars.update(_pb(st["pat"]))
         for e in stmt_exprs(st):
             for x in walk_shallow(e):
-                if x.get("k") == "mcall" and x["method"] == "insert" and expr_text(x["recv"]) == "context" and x["args"] and lit_str(x["args"][0]):
+                if x.get("k") == "mcall" and x["method"] == "insert" and expr_text(x["recv"]) in ctxvars and x["args"] and lit_str(x["args"][0]):
                     kv = KeyVal(expr_text(x["args"][1]) if len(x["args"]) > 1 else "")
                     kv.ast = x["args"][1] if len(x["args"]) > 1 else None
                     keys[lit_str(x["args"][0])] = kv
